@@ -1,6 +1,8 @@
 (** C02 — the generated container builds each service exactly as declared: structure of the run-time semantics
     (Runtime/RT.v mirrors the runtime library; Runtime/Load.v what the generated constructor registers). *)
-From GV Require Import Base.Str Model.Input Model.Compile Runtime.RT Runtime.Load.
+From GV Require Import Base.Str Model.Input Model.Compile Runtime.RT Runtime.Load Proofs.RTProofs.
+From Coq Require Import List.
+Import ListNotations.
 
 (** a todo service always surfaces as the error "service todo", whatever the state, never as an object *)
 Theorem C02_todo_is_error : forall depsf fuel st b id d,
@@ -45,3 +47,61 @@ Proof.
   - intros p H1 H2 H3 Hn. rewrite H1, H2, H3. destruct p; try reflexivity. exfalso. apply (Hn x). reflexivity.
 Qed.
 Print Assumptions C02_arg_forms.
+
+(** ---- creation order and error behaviour of Get (Proofs/RTProofs.v) ---- *)
+
+(** a non-shared, undecorated constructor service: arguments resolved in order, then the constructor, then the fields in
+    declared order, then the calls in declared order; the object records exactly these *)
+Theorem C02_creation_order : forall depsf f st b id d o deps st1 b1 args st2 b2 xs st3 b3 argss,
+  lookup id (rt_services st) = Some d ->
+  sd_create d = CCtor o false deps ->
+  (forall dd : ddef, In dd (rt_decorators st) -> lookup (dd_tag dd) (sd_tags d) = None) ->
+  resolve_scope depsf st id = Compile.OScNonShared ->
+  resolve_deps depsf f st b deps = (st1, b1, ROk args) ->
+  deps_ok depsf f (with_serial (with_trace st1 (s "ctor:" ++ o)) (rt_serial st1 + 1)) b1 (map snd (sd_fields d)) st2 b2 xs ->
+  calls_ok depsf f st2 b2 (sd_calls d) st3 b3 argss ->
+  get depsf (S f) st b id =
+  (st3, b3, ROk (VObj o (args ++ concat (map call_entry (combine (sd_calls d) argss)))
+                      (set_fields (combine (map fst (sd_fields d)) xs) []) (map rc_method (sd_calls d)) (rt_serial st1 + 1))).
+Proof. exact get_ctor_nonshared_init. Qed.
+Print Assumptions C02_creation_order.
+
+(** a failing constructor surfaces as an error from Get and stores nothing: caches are those left by argument resolution *)
+Theorem C02_failing_constructor_is_error : forall depsf f st b id d o deps,
+  lookup id (rt_services st) = Some d -> sd_create d = CCtor o true deps ->
+  cached_of (resolve_scope depsf st id) st b id = None ->
+  exists st1 b1 r1 st' e,
+    resolve_deps depsf f st b deps = (st1, b1, r1) /\ get depsf (S f) st b id = (st', b1, RErr e) /\
+    rt_shared st' = rt_shared st1 /\ rt_serial st' = rt_serial st1 /\ rt_pcache st' = rt_pcache st1.
+Proof. exact get_failing_ctor_err. Qed.
+Print Assumptions C02_failing_constructor_is_error.
+
+(** a Get that fails never leaves an object behind for that service (configurations whose service dependencies are ranked, i.e. acyclic) *)
+Theorem C02_error_never_cached : forall depsf rk f st b id st' b' e,
+  (forall m d, lookup m (rt_services st) = Some d -> svc_ok st rk m d) ->
+  get depsf f st b id = (st', b', RErr e) ->
+  lookup id (rt_shared st') = lookup id (rt_shared st) /\ lookup id b' = lookup id b.
+Proof. exact get_err_not_cached. Qed.
+Print Assumptions C02_error_never_cached.
+
+(** a successful Get of a shared / contextual service caches exactly the returned object *)
+Theorem C02_success_cached : forall depsf f st b id st' b' v,
+  get depsf (S f) st b id = (st', b', ROk v) ->
+  match resolve_scope depsf st id with
+  | Compile.OScShared => lookup id (rt_shared st') = Some v
+  | Compile.OScContextual => lookup id b' = Some v
+  | _ => True
+  end.
+Proof. exact get_ok_cached. Qed.
+Print Assumptions C02_success_cached.
+
+(** with acyclic (ranked) dependencies the fuel of the model is never the reason of an error: the results the model reports are
+    the semantics, not an artefact of the bound *)
+Theorem C02_fuel_suffices : forall depsf rk rkp M st f b id st' b' r,
+  (forall id0 toks n, lookup id0 (rt_params st) = Some (DPattern toks) -> In (KRef n) toks -> lookup n (rt_params st) <> None -> rkp n < rkp id0) ->
+  (forall n, lookup n (rt_params st) <> None -> rkp n <= M) ->
+  (forall m d, lookup m (rt_services st) = Some d -> svc_ok st rk m d) ->
+  3 * rk id + 3 * M + 9 <= f ->
+  get depsf f st b id = (st', b', r) -> r <> RErr (s "out of fuel").
+Proof. exact get_never_out_of_fuel. Qed.
+Print Assumptions C02_fuel_suffices.
